@@ -1362,3 +1362,171 @@ func init() {
 			return []Obligation{o}
 		}})
 }
+
+// ARITY.formals-all-kinds — C19 ("shadowing a builtin name locally suppresses
+// the check for the calls that reach the shadowing binding"): every parameter
+// of a function — required, optional, rest AND keyword — is a local binding in
+// its body.  The helper that lists a formals list's names for the shadowing
+// logic must list all of them; a parameter kind left out is a name the linter
+// still takes for the builtin.
+func init() {
+	register(&Rule{ID: "ARITY.formals-all-kinds", Floor: 1,
+		Doc: "CollectFormals (the list of names a formals list binds, shared by lint and analysis) records every parameter: either it adds every non-marker symbol of the list, or — when it classifies parameters with lisp.ParamKind — the clauses that record a name cover every constant of that type (required, optional, rest, key)",
+		Run: func(c *Ctx) []Obligation {
+			const rid = "ARITY.formals-all-kinds"
+			fn, fd, pkg := c.LookupFunc("astutil.CollectFormals")
+			if fn == nil {
+				return []Obligation{anchorMissing(rid, "astutil.CollectFormals")}
+			}
+			u := FuncUnit{fn, fd, pkg}
+			info := pkg.TypesInfo
+			lp := c.Pkg("lisp")
+			kindT := lp.Types.Scope().Lookup("ParamKind")
+			all := map[string]bool{}
+			if kindT != nil {
+				for _, nm := range lp.Types.Scope().Names() {
+					if k, ok := lp.Types.Scope().Lookup(nm).(*types.Const); ok && types.Identical(k.Type(), kindT.Type()) {
+						all[nm] = true
+					}
+				}
+			}
+			var mapParam types.Object
+			for _, f := range fd.Type.Params.List {
+				for _, nm := range f.Names {
+					if _, ok := info.Defs[nm].Type().Underlying().(*types.Map); ok {
+						mapParam = info.Defs[nm]
+					}
+				}
+			}
+			stores := func(n ast.Node) bool {
+				found := false
+				ast.Inspect(n, func(m ast.Node) bool {
+					if as, ok := m.(*ast.AssignStmt); ok {
+						for _, l := range as.Lhs {
+							if ix, ok := ast.Unparen(l).(*ast.IndexExpr); ok && identObj(info, ix.X) == mapParam {
+								found = true
+							}
+						}
+					}
+					return true
+				})
+				return found
+			}
+			var kindSwitch *ast.SwitchStmt
+			ast.Inspect(fd.Body, func(n ast.Node) bool {
+				if sw, ok := n.(*ast.SwitchStmt); ok && sw.Tag != nil && kindT != nil {
+					if tv, ok := info.Types[sw.Tag]; ok && types.Identical(tv.Type, kindT.Type()) {
+						kindSwitch = sw
+					}
+				}
+				return true
+			})
+			if kindSwitch == nil {
+				if stores(fd.Body) {
+					return []Obligation{mkOb(c, rid, u, "names recorded", fd, Proved, "records every symbol of the list that is not a marker (no classification by parameter kind)", true)}
+				}
+				return []Obligation{mkOb(c, rid, u, "names recorded", fd, Undecided, "CollectFormals neither stores into its map directly nor classifies parameters by lisp.ParamKind", true)}
+			}
+			covered := map[string]bool{}
+			hasDefaultStore := false
+			for _, st := range kindSwitch.Body.List {
+				cc := st.(*ast.CaseClause)
+				if !stores(cc) {
+					continue
+				}
+				if cc.List == nil {
+					hasDefaultStore = true
+				}
+				for _, e := range cc.List {
+					if k, ok := identObjOrSel(info, e).(*types.Const); ok {
+						covered[k.Name()] = true
+					}
+				}
+			}
+			var missing []string
+			for k := range all {
+				if !covered[k] && !hasDefaultStore {
+					missing = append(missing, k)
+				}
+			}
+			sort.Strings(missing)
+			if len(missing) > 0 {
+				return []Obligation{mkOb(c, rid, u, "names recorded", kindSwitch, Violated, "parameters of kind "+strings.Join(missing, ", ")+" are not recorded as names the formals list binds: (defun transform (x &key map) (map x)) calls its own keyword parameter, runs fine, and is reported as `map requires at least 3 argument(s)`", true)}
+			}
+			return []Obligation{mkOb(c, rid, u, "names recorded", kindSwitch, Proved, "every ParamKind is recorded", true)}
+		}})
+}
+
+// SCOPE.package-before-bare — C19 ("every function defined with defun": a user
+// function that has a builtin's name is still the user's function where it is
+// visible): names defined in a package are stored under "pkg:name", builtins
+// under the bare name.  Resolution in a package therefore asks for the
+// package-qualified entry FIRST; asking the bare-name table first finds the
+// builtin, and the arity checks judge calls of the user's `first` by the
+// builtin's signature (or, having stepped aside for the builtin, not at all).
+func init() {
+	register(&Rule{ID: "SCOPE.package-before-bare", Floor: 1,
+		Doc: "in analysis.Scope.LookupInPackage the bare-name table (Scope.Symbols) is consulted only after the test for a package and the package-qualified lookups it guards (PackageSymbols, PackageImports): on every turn of the scope walk the `pkg != \"\"` test dominates the Symbols lookup",
+		Run: func(c *Ctx) []Obligation {
+			const rid = "SCOPE.package-before-bare"
+			fn, fd, pkg := c.LookupFunc("analysis.(*Scope).LookupInPackage")
+			symF := c.LookupField("analysis.Scope.Symbols")
+			pkgSymF := c.LookupField("analysis.Scope.PackageSymbols")
+			if fn == nil || symF == nil || pkgSymF == nil {
+				return []Obligation{anchorMissing(rid, "Scope.LookupInPackage / Scope.Symbols / Scope.PackageSymbols")}
+			}
+			u := FuncUnit{fn, fd, pkg}
+			info := pkg.TypesInfo
+			fc := c.cfgOf(u, nil)
+			var bare, qualified []Loc
+			var bareNode ast.Node
+			for _, b := range fc.G.Blocks {
+				if !fc.Live(b) {
+					continue
+				}
+				for i, n := range b.Nodes {
+					ast.Inspect(n, func(m ast.Node) bool {
+						ix, ok := m.(*ast.IndexExpr)
+						if !ok {
+							return true
+						}
+						switch FieldOfSelector(info, ix.X) {
+						case symF:
+							bare = append(bare, Loc{b, i})
+							bareNode = ix
+						case pkgSymF:
+							qualified = append(qualified, Loc{b, i})
+						}
+						return true
+					})
+				}
+			}
+			if len(bare) == 0 || len(qualified) == 0 {
+				return []Obligation{mkOb(c, rid, u, "lookup order", fd, Undecided, "the function no longer consults both Scope.Symbols and Scope.PackageSymbols", true)}
+			}
+			// the package test: a condition `pkg != ""` whose true edge leads to the qualified lookup
+			var testLoc *Loc
+			for _, b := range fc.G.Blocks {
+				if !fc.Live(b) {
+					continue
+				}
+				if cnd := fc.CondOf(b); cnd != nil {
+					if be, ok := ast.Unparen(cnd).(*ast.BinaryExpr); ok && (be.Op == token.NEQ || be.Op == token.EQL) {
+						if s, ok := constStringVal(info, be.Y); ok && s == "" {
+							l := Loc{b, len(b.Nodes) - 1}
+							testLoc = &l
+						}
+					}
+				}
+			}
+			if testLoc == nil {
+				return []Obligation{mkOb(c, rid, u, "lookup order", fd, Undecided, "no `pkg != \"\"` test found", true)}
+			}
+			for _, bl := range bare {
+				if !fc.Dominates(*testLoc, bl) {
+					return []Obligation{mkOb(c, rid, u, "lookup order", bareNode, Violated, "the bare-name table is consulted before the package-qualified entries: in a package that defines a function named like a builtin, (defun first (xs default) …), the name resolves to the builtin — user-arity skips the call (not a user function) after builtin-arity stepped aside for the defun, so (first '()) passes lint and fails argument binding at run time", true)}
+				}
+			}
+			return []Obligation{mkOb(c, rid, u, "lookup order", bareNode, Proved, "the package test and the package-qualified lookups precede the bare-name lookup on every turn", true)}
+		}})
+}
